@@ -89,6 +89,21 @@ def checkC12 (toks : List String) (res : String) : Option Verdict :=
       | .ok v => showNum (L, (convert a v).2)
       | _ => "UB"
     some { model := m, spec := some (want == res), branch := "asg/" ++ toks[1]! ++ (if want == "UB" then "/ub" else ""), nontrivial := want != "UB" }
+  | ["cvte", ta, tb, l] => do
+    -- conversion between scaled nests / to a built-in integer: the hand-written code multiplies the representation by
+    -- radix^(eA-eB) or divides it by radix^(eB-eA) (truncating toward zero) and converts to the destination's type
+    let A ← parseTy ta; let B ← parseTy tb; let l ← l.toInt?
+    let d ← innerTy B
+    let ea : Int := match A with | .sc _ e _ => e | _ => 0
+    let eb : Int := match B with | .sc _ e _ => e | _ => 0
+    let ρ : Nat := radixOf A
+    -- (a built-in destination is the representation of the same conversion to exponent 0)
+    let m := match B with
+      | .int D => showRes showNum ((Layered.cast (.sc (.int D) 0 ρ) (A, l)).map fun w => (Ty.int D, w.2))
+      | _ => showRes showNum (Layered.cast B (A, l))
+    let t : Int := if ea ≥ eb then l * (ρ : Int) ^ (ea - eb).toNat else l.tdiv ((ρ : Int) ^ (eb - ea).toNat)
+    let spec : Option Bool := if d.inRange t && ea < eb then some (res == showNum (B, t)) else none
+    some { model := m, spec := spec, branch := "cvte/" ++ (if ea < eb then "down" else "up"), nontrivial := spec.isSome }
   | ["asge", op, tl, tr, l, r] => do
     -- compound assignment on scaled nests with any exponents: `a op= b` must be `a op b` (exact per C01/C02
     -- whenever the intermediate is exact) converted back to `a`'s type, truncating toward zero (C04)
